@@ -70,6 +70,11 @@ def isCSChar (c : Char) : Prop :=
   (65 ≤ c.toNat ∧ c.toNat ≤ 90) ∨ (48 ≤ c.toNat ∧ c.toNat ≤ 57) ∨ c.toNat = 32 ∨ c.toNat = 95
 instance (c : Char) : Decidable (isCSChar c) := by unfold isCSChar; exact inferInstance
 
+/-- digit, space or underscore (what `_check_code_string` refuses as a first character) -/
+def isDigitSpaceUnderscore (c : Char) : Prop := (48 ≤ c.toNat ∧ c.toNat ≤ 57) ∨ c.toNat = 32 ∨ c.toNat = 95
+/-- space or underscore (what `_check_code_string` refuses as a last character) -/
+def isSpaceUnderscore (c : Char) : Prop := c.toNat = 32 ∨ c.toNat = 95
+
 /-- Code String: at most 16 characters of the CS repertoire -/
 def validCS (s : List Char) : Prop := s.length ≤ 16 ∧ ∀ c ∈ s, isCSChar c
 
